@@ -52,59 +52,86 @@ pub fn run(seed: u64, per_type: usize, out: &mut dyn Write) {
     let mut all_types = gen::BINARY_TYPES.to_vec();
     all_types.push(VariantType::Vector2int16);
     // ---- every Variant through the serde entry points -----------------------------------------
+    // long byte payloads are shown by length and digest (the judge compares what it is shown)
+    let shown = |x: &Variant| -> Value {
+        let long = |t: &str, b: &[u8]| json!({"t": t, "len": b.len(), "digest": blake3::hash(b).to_hex().to_string()});
+        match x {
+            Variant::Ref(r) => json!({"t": "Ref", "v": bytes(r.to_string().as_bytes())}),
+            Variant::BinaryString(b) if { let r: &[u8] = b.as_ref(); r.len() > 600 } => long("BinaryString", b.as_ref()),
+            Variant::SharedString(b) if b.data().len() > 600 => long("SharedString", b.data()),
+            Variant::String(b) if b.len() > 600 => long("String", b.as_bytes()),
+            Variant::ContentId(b) if b.as_str().len() > 600 => long("ContentId", b.as_str().as_bytes()),
+            other => pval(other, &refs),
+        }
+    };
+    let mut exercise = |label: String, i: usize, v: Variant, out: &mut dyn Write| {
+        let before = shown(&v);
+        let finite = !has_nonfinite(&v);
+        let mut entries: Vec<(&str, Result<Variant, String>)> = Vec::new();
+        if finite {
+            let text = attempt(|| serde_json::to_string(&v).map_err(|e| e.to_string()));
+            match &text {
+                Ok(t) => {
+                    entries.push(("json-str", attempt(|| serde_json::from_str::<Variant>(t).map_err(|e| e.to_string()))));
+                    entries.push(("json-slice", attempt(|| serde_json::from_slice::<Variant>(t.as_bytes()).map_err(|e| e.to_string()))));
+                    entries.push(("json-reader", attempt(|| serde_json::from_reader::<_, Variant>(t.as_bytes()).map_err(|e| e.to_string()))));
+                }
+                Err(e) => entries.push(("json-str", Err(format!("serialize: {}", e)))),
+            }
+            entries.push(("json-value", attempt(|| {
+                let val = serde_json::to_value(&v).map_err(|e| e.to_string())?;
+                serde_json::from_value::<Variant>(val).map_err(|e| e.to_string())
+            })));
+        }
+        entries.push(("bincode", attempt(|| {
+            let b = bincode::serialize(&v).map_err(|e| e.to_string())?;
+            bincode::deserialize::<Variant>(&b).map_err(|e| e.to_string())
+        })));
+        entries.push(("msgpack", attempt(|| {
+            let b = rmp_serde::to_vec(&v).map_err(|e| e.to_string())?;
+            rmp_serde::from_slice::<Variant>(&b).map_err(|e| e.to_string())
+        })));
+        for (entry, r) in entries {
+            let mut ev = json!({"ep": format!("serde:{}:{}:{}", label, i, entry), "op": "serde", "variant": label,
+                                "entry": entry, "value": before});
+            match r {
+                Ok(back) => {
+                    ev["outcome"] = json!("ok");
+                    ev["decoded"] = shown(&back);
+                }
+                Err(e) => {
+                    ev["outcome"] = json!("err");
+                    ev["detail"] = json!(e);
+                }
+            }
+            emit(out, ev);
+        }
+    };
     for ty in &all_types {
         for i in 0..per_type {
-            let v = match gen::value_of(*ty, &mut rng, &[], true) {
-                Some(v) => v,
-                None => continue,
-            };
-            // Ref values are shown by raw value here
-            let shown = |x: &Variant| match x {
-                Variant::Ref(r) => json!({"t": "Ref", "v": bytes(r.to_string().as_bytes())}),
-                other => pval(other, &refs),
-            };
-            let before = shown(&v);
-            let finite = !has_nonfinite(&v);
-            let mut entries: Vec<(&str, Result<Variant, String>)> = Vec::new();
-            if finite {
-                let text = attempt(|| serde_json::to_string(&v).map_err(|e| e.to_string()));
-                match &text {
-                    Ok(t) => {
-                        entries.push(("json-str", attempt(|| serde_json::from_str::<Variant>(t).map_err(|e| e.to_string()))));
-                        entries.push(("json-slice", attempt(|| serde_json::from_slice::<Variant>(t.as_bytes()).map_err(|e| e.to_string()))));
-                        entries.push(("json-reader", attempt(|| serde_json::from_reader::<_, Variant>(t.as_bytes()).map_err(|e| e.to_string()))));
-                    }
-                    Err(e) => entries.push(("json-str", Err(format!("serialize: {}", e)))),
-                }
-                entries.push(("json-value", attempt(|| {
-                    let val = serde_json::to_value(&v).map_err(|e| e.to_string())?;
-                    serde_json::from_value::<Variant>(val).map_err(|e| e.to_string())
-                })));
-            }
-            entries.push(("bincode", attempt(|| {
-                let b = bincode::serialize(&v).map_err(|e| e.to_string())?;
-                bincode::deserialize::<Variant>(&b).map_err(|e| e.to_string())
-            })));
-            entries.push(("msgpack", attempt(|| {
-                let b = rmp_serde::to_vec(&v).map_err(|e| e.to_string())?;
-                rmp_serde::from_slice::<Variant>(&b).map_err(|e| e.to_string())
-            })));
-            for (entry, r) in entries {
-                let mut ev = json!({"ep": format!("serde:{:?}:{}:{}", ty, i, entry), "op": "serde", "variant": format!("{:?}", ty),
-                                    "entry": entry, "value": before});
-                match r {
-                    Ok(back) => {
-                        ev["outcome"] = json!("ok");
-                        ev["decoded"] = shown(&back);
-                    }
-                    Err(e) => {
-                        ev["outcome"] = json!("err");
-                        ev["detail"] = json!(e);
-                    }
-                }
-                emit(out, ev);
+            if let Some(v) = gen::value_of(*ty, &mut rng, &[], true) {
+                exercise(format!("{:?}", ty), i, v, out);
             }
         }
+    }
+    // byte-string-like types at every length around the powers of two and their 3/4 points, up to 70 000
+    let mut lengths: Vec<usize> = Vec::new();
+    for k in 0..=16u32 {
+        let p = 1usize << k;
+        for l in [p.saturating_sub(1), p, p + 1, p * 3 / 4, p * 3 / 4 + 1, p * 3 / 2, p * 3 / 2 + 1] {
+            if l <= 70_000 && !lengths.contains(&l) {
+                lengths.push(l);
+            }
+        }
+    }
+    lengths.sort();
+    for (i, len) in lengths.iter().enumerate() {
+        let data: Vec<u8> = (0..*len).map(|j| (j * 31 % 251) as u8).collect();
+        let text: String = (0..*len).map(|j| (b'a' + (j % 26) as u8) as char).collect();
+        exercise("BinaryString".into(), 1000 + i, Variant::BinaryString(data.clone().into()), out);
+        exercise("SharedString".into(), 1000 + i, Variant::SharedString(rbx_dom_weak::types::SharedString::new(data)), out);
+        exercise("String".into(), 1000 + i, Variant::String(text.clone()), out);
+        exercise("ContentId".into(), 1000 + i, Variant::ContentId(text.into()), out);
     }
     // ---- text forms: UniqueId and Ref --------------------------------------------------------
     let mut uids = vec![
